@@ -1363,6 +1363,54 @@ class ClaimTrie:
                 yield dict(t=t, which=which)
 
 
+
+# ---------------------------------------------------------------- bounded stand-in: what the wallet database records
+
+@proof("C08", "database.records-the-flag-it-is-given")
+class DatabaseRecordsTheFlag:
+    """BOUNDED stand-in on the real wallet Database (sqlite): the verified flag STORED for a transaction is the flag of the
+    transaction object saved last, together with its height - a transaction once recorded as verified at one height and later
+    saved again unverified (reported at another height, or at a height the wallet has no header for: maybe_verify_transaction
+    left is_verified False) is recorded unverified at the new height; nothing sticks"""
+    bounded_only = True
+    inputs = dict(case=TInt())
+    note = "first saved verified at height 5, then saved again as (7, unverified), (500, unverified), (9, verified), (0, unverified), in 4 orders"
+
+    def run(case):
+        import shutil
+        from contracts.c03 import real_wallet, COIN
+        orders = [((7, False), (500, False), (9, True), (0, False)), ((500, False), (7, False), (0, False), (9, True)),
+                  ((9, True), (7, False), (9, True), (500, False)), ((0, False), (9, True), (500, False), (7, False))]
+
+        async def go():
+            d, ledger, account = await real_wallet('standard', [COIN], [])
+            try:
+                problems = []
+                funding, utxos = ledger.verif_fundings[0]           # stored by real_wallet: verified at height 5
+                for height, verified in orders[case % 4]:
+                    funding.height, funding.is_verified = height, verified
+                    for u in utxos:
+                        await ledger.db.save_transaction_io(funding, ledger.hash160_to_address(u.script.values['pubkey_hash']),
+                                                            u.script.values['pubkey_hash'], '')
+                    rows = await ledger.db.db.execute_fetchall("select height, is_verified from tx where txid = ?", (funding.id,))
+                    row = rows[0]
+                    got = tuple(row.values()) if isinstance(row, dict) else tuple(row)
+                    if (got[0], bool(got[1])) != (height, verified):
+                        problems.append(f"saved as (height {height}, verified {verified}), recorded as {got}")
+                return problems
+            finally:
+                await ledger.db.close()
+                shutil.rmtree(d, ignore_errors=True)
+        return asyncio.run(go())
+
+    def ensures_recorded_as_saved(result):
+        return result == []
+
+    def samples():
+        for case in range(4):
+            yield dict(case=case)
+
+
 TRUSTED = [
     "hashlib.sha256 is a function of the bytes fed (uninterpreted, 32-byte result); nothing else is assumed about it except, in "
     "the alter-* proofs only, the NAMED HYPOTHESIS no_collision: no SHA-256 collision between the corresponding strings hashed in "
